@@ -7,6 +7,7 @@ import (
 	"sort"
 	"strconv"
 	"strings"
+	"time"
 	"unicode"
 	"unicode/utf8"
 
@@ -115,8 +116,14 @@ func genCLI(w *out.W, tier string) {
 		if err := clirun.WriteDir(dir, map[string]string{"1_base.sql": base.String(), "2_drop.sql": text}); err != nil {
 			panic(err)
 		}
+		t0 := time.Now()
 		res := clirun.Run(dir, nil, "migrate", "lint", "--dir", "file://"+dir, "--dev-url", "sqlite://dev?mode=memory", "--latest", "1", "--format", tmpl)
 		fid := fmt.Sprintf("f%d", fi)
+		if time.Since(t0) > 60*time.Second {
+			// the CLI did not come back (clirun kills it after 120 s): termination clause; stop the stage.
+			w.Violation(fid, "hang", fmt.Sprintf("atlas migrate lint did not return within %s on %q", time.Since(t0).Round(time.Second), text))
+			return
+		}
 		got := map[int]int{}
 		for _, p := range strings.Fields(res.Stdout) {
 			a := strings.SplitN(p, ":", 2)
